@@ -1276,7 +1276,8 @@ def check_c12(ctx, R):
     for m in H_MODULES:
         mod = P.module(UTIL + m + ".py")
         for f in mod.all_funcs():
-            for c in walk_local(f.node):
+            # (read with private helpers in place and locals that only name `<href>.item` written out: `pin = hpin.item … x.item is not pin`)
+            for c in walk_local(inlined_view(P, f).node):
                 if isinstance(c, ast.Compare) and len(c.ops) == 1 and isinstance(c.ops[0], (ast.Eq, ast.NotEq, ast.Is, ast.IsNot)):
                     l, r = c.left, c.comparators[0]
                     if isinstance(l, ast.Attribute) and isinstance(r, ast.Attribute) and l.attr == "item" and r.attr == "item":
